@@ -161,14 +161,11 @@ def classify(text, kind, path, allow):
         j = judge(t, path, allow)
         return j is not None and j[0] is None
 
-    a, b = t_slash(text), t_charlit(text)
-    if a != text and ok(a):
-        return [SIG_SLASH]
+    # (the slash-before-continuation root cause was repaired in /repo; its classifier is gone so that
+    # the defect is reported again if it ever returns)
+    b = t_charlit(text)
     if b != text and ok(b):
         return [SIG_CHARLIT]
-    ab = t_charlit(a)
-    if a != text and b != text and ok(ab):
-        return [SIG_SLASH, SIG_CHARLIT]
     return None
 
 
@@ -410,7 +407,7 @@ def run(ctx):
     # coverage-guided campaign on FileParser with the scanner as in-target oracle
     from vlib import fuzz
 
-    findings, stats = fuzz.run_campaign("checks.c05", ctx.known_sigs, ctx.seed, nprocs=ctx.pick(4, 16), runs=ctx.pick(15000, 1500000), max_len=ctx.pick(24, 48))
+    findings, stats = fuzz.run_campaign("checks.c05", ctx.known_sigs, ctx.seed, nprocs=ctx.pick(4, 16), runs=ctx.pick(15000, 250000), max_len=ctx.pick(24, 48))
     res.extra["atheris"] = stats
     if "executions" in stats:
         res.evaluations += stats.get("in_domain", 0)
